@@ -54,7 +54,7 @@ impl Violation {
     }
 }
 
-pub const BITMAP_BITS: usize = 1 << 24;
+pub const BITMAP_BITS: usize = 1 << 25;
 
 /// Fixed-size sketch of a set of 64-bit fingerprints: the number of set bits
 /// is a lower bound of the number of distinct fingerprints (collisions only
